@@ -268,6 +268,76 @@ fn check_standalone(s: &mut Session, case: &Case, obs: &[StepObs], desc: &str) {
     }
 }
 
+/// a painted draw with padding rows (bottom alignment, shift > 0): after the erase prologue
+/// (cursor moves / clear_line only) an empty write_line that does not terminate a written line
+fn draw_has_padding(ops: &[TOp]) -> bool {
+    let body_start = ops.iter().position(|o| matches!(o, TOp::Str(_) | TOp::Line(_))).unwrap_or(ops.len());
+    let body = &ops[body_start..];
+    body.iter().enumerate().any(|(i, o)| {
+        matches!(o, TOp::Line(l) if l.is_empty()) && (i == 0 || matches!(body[i - 1], TOp::Line(_)))
+    })
+}
+
+/// Histories that switch to MultiProgressAlignment::Bottom: same screen oracle, but a failure
+/// in the narrow situation of the recorded open finding D22 - bottom alignment is on, a frame
+/// with padding rows (shift > 0) has been painted, and a VISIBLY finished member has been
+/// dropped (its rows are to be kept) - is classified `bottom-alignment-kept-rows-misplaced`;
+/// any other failure keeps the oracle's own class.
+fn run_bottom_cases(s: &mut Session, cases: &[Case], nontrivial: &dyn Fn(&Case, &[StepObs]) -> bool) {
+    for case in cases {
+        let obs = run_case(case);
+        let desc = describe(case);
+        let mut or = Oracle::new(case);
+        let nb = case.bars.len();
+        let (mut bottom, mut padded, mut kept_candidate) = (false, false, false);
+        let mut fin_visible = vec![false; nb];
+        let mut bad = None;
+        for ((_, op), o) in case.ops.iter().zip(obs.iter()) {
+            match op {
+                Op::SetAlign(b) => bottom = bottom || *b,
+                Op::Finish(b, k) => fin_visible[*b] = !matches!(k, Fin::AndClear),
+                Op::FinishUsingStyle(b) => fin_visible[*b] = !matches!(case.bars[*b].fin, Fin::AndClear),
+                Op::Reset(b) => fin_visible[*b] = false,
+                Op::Drop(b) => {
+                    let was_finished = fin_visible[*b];
+                    // dropping an unfinished bar applies the stored finish first
+                    if was_finished || !matches!(case.bars[*b].fin, Fin::AndClear) {
+                        kept_candidate = true;
+                    }
+                }
+                _ => {}
+            }
+            if bottom && o.emitted.iter().any(|x| *x == TOp::Flush) && draw_has_padding(&o.emitted) {
+                padded = true;
+            }
+            if let Some(v) = or.step(op, o) {
+                bad = Some(v);
+                break;
+            }
+        }
+        if bad.is_none() && obs.len() == case.ops.len() {
+            bad = or.final_cursor_check();
+        }
+        if let Some(v) = bad {
+            let class = if v.class == "bottom-alignment-shrunken-frame" && bottom && padded && kept_candidate {
+                "bottom-alignment-kept-rows-misplaced".to_string()
+            } else {
+                v.class.clone()
+            };
+            s.fail(&class, v.detail, desc.clone());
+        }
+        for (_, o) in &case.ops {
+            s.count(&format!("op:{}", o.name()));
+        }
+        s.count("cases_with_bottom_alignment");
+        if padded {
+            s.count("cases_with_bottom_padding_painted");
+        }
+        let nt = nontrivial(case, &obs);
+        s.case(coq_case(case, &obs), desc, nt);
+    }
+}
+
 fn main() {
     let a = args();
     let mut s = Session::new(&a, "C04", COQ_HEADER, COQ_CASE_TY, COQ_CHECKER);
@@ -286,7 +356,7 @@ fn main() {
             cfg.w_struct = 20;
             cfg.bursts = true;
             cfg.hz = *r.pick(&[None, Some(1u8), Some(20)]);
-            cfg.bottom = false;
+            cfg.bottom = i % 5 == 1; // a fraction with MultiProgressAlignment::Bottom (see run_bottom_cases)
             cfg.max_ops = 40;
             cases.push(gen_multi_case(&mut r, &cfg));
         }
@@ -295,9 +365,13 @@ fn main() {
         let obs = run_case(case);
         check_standalone(&mut s, case, &obs, &describe(case));
     }
-    run_sys_cases(&mut s, &cases, &|c, _| {
+    let nontrivial = |c: &Case, _: &[StepObs]| {
         c.ops.len() >= 10 && c.ops.iter().any(|(_, o)| matches!(o, Op::Finish(..) | Op::FinishUsingStyle(_) | Op::Drop(_)))
-    });
+    };
+    let (bottom_cases, top_cases): (Vec<Case>, Vec<Case>) =
+        cases.into_iter().partition(|c| c.ops.iter().any(|(_, o)| matches!(o, Op::SetAlign(true))));
+    run_sys_cases(&mut s, &top_cases, &nontrivial);
+    run_bottom_cases(&mut s, &bottom_cases, &nontrivial);
     // (c) iterator-driven completion
     for _ in 0..n / 4 {
         let (case, obs) = run_iter_case(&mut r);
